@@ -177,9 +177,20 @@ func (r *WireReader) UnreadByte() error {
 	return nil
 }
 
+// remaining returns the number of unread bytes.
+func (r *WireReader) remaining() int {
+	return r.Length() - r.Pos()
+}
+
 func (r *WireReader) ReadWire(l int) (Wire, error) {
+	if l < 0 {
+		return nil, ErrBufferOverflow
+	}
 	if !r.nextSeg() && l > 0 {
 		return nil, io.EOF
+	}
+	if l > r.remaining() {
+		return nil, io.ErrUnexpectedEOF
 	}
 	ret := make(Wire, 0, len(r.wire)-r.seg)
 	for l > 0 {
@@ -201,12 +212,19 @@ func (r *WireReader) ReadWire(l int) (Wire, error) {
 }
 
 func (r *WireReader) ReadBuf(l int) (Buffer, error) {
+	if l < 0 {
+		return nil, ErrBufferOverflow
+	}
 	if !r.nextSeg() {
 		if l > 0 {
 			return nil, io.ErrUnexpectedEOF
 		}
 		// Zero-length read at the very end (e.g. an empty last name component).
 		return Buffer{}, nil
+	}
+	// Check before allocating: l comes from the (untrusted) input.
+	if l > r.remaining() {
+		return nil, io.ErrUnexpectedEOF
 	}
 	if r.pos+l <= len(r.wire[r.seg]) {
 		p := r.pos
@@ -228,7 +246,7 @@ func (r *WireReader) ReadBuf(l int) (Buffer, error) {
 			} else {
 				copy(ret[cur:], r.wire[r.seg][r.pos:r.pos+l])
 				r.pos += l
-				cur -= l
+				cur += l
 				l = 0
 			}
 		}
@@ -280,6 +298,10 @@ func (r *WireReader) Skip(n int) error {
 	if n < 0 {
 		return errors.New("encoding.WireReader.Skip: backword skipping is not allowed")
 	}
+	if n > r.remaining() {
+		// Do not move: the position stays valid for the caller's error handling.
+		return io.EOF
+	}
 	r.pos += n
 	for r.pos > len(r.wire[r.seg]) {
 		r.pos -= len(r.wire[r.seg])
@@ -292,7 +314,7 @@ func (r *WireReader) Skip(n int) error {
 }
 
 func (r *WireReader) Delegate(l int) ParseReader {
-	if l < 0 || r.seg >= len(r.wire) {
+	if l < 0 || r.seg >= len(r.wire) || l > r.remaining() {
 		return NewBufferReader([]byte{})
 	}
 	if r.pos+l <= len(r.wire[r.seg]) {
